@@ -471,6 +471,13 @@ func (f *Frame) enterLoop(l *Loop, cur *State, phiVals map[*ssa.Phi]Val) *State 
 			st.ghost[g] = e.freshConst("gh."+g, srt)
 		}
 	}
+	if ef.allocs {
+		// the loop contains calls: the ghost clock may have advanced by any amount
+		c0 := e.clockNow(cur)
+		n := e.freshConst("clock", "Int")
+		e.assume("true", fmt.Sprintf("(>= %s %s)", n, c0))
+		st.ghost["lib.clock"] = n
+	}
 	f.havocHeaps(ef, cur, st, wmIn)
 	// inferred: range-index bounds
 	for _, p := range phis {
